@@ -66,6 +66,9 @@ type Layout struct {
 	Beside  Bundle  `json:"beside"`
 	Libexec Bundle  `json:"libexec"`
 	Queries []Query `json:"queries"`
+	// LateFrom > 0: the bundle beside the executable is not there at first; it
+	// is put in place (inside the same process) right before query LateFrom.
+	LateFrom int `json:"beside_appears_before_query,omitempty"`
 }
 
 // gen produces n deterministic bytes.
@@ -226,6 +229,8 @@ type ChildSpec struct {
 // ChildQuery is a query with its concrete output path.
 type ChildQuery struct {
 	Goos, Goarch, Output string
+	// InstallFrom / InstallTo: rename this path before the query.
+	InstallFrom, InstallTo string
 }
 
 // ChildAnswer is the outcome of one query.
@@ -254,6 +259,12 @@ func childMain(specPath string) int {
 	var res ChildResult
 	res.Executable, _ = os.Executable()
 	for _, q := range spec.Queries {
+		if q.InstallFrom != "" {
+			if err := os.Rename(q.InstallFrom, q.InstallTo); err != nil {
+				fmt.Fprintln(os.Stderr, "c46 child:", err)
+				return 3
+			}
+		}
 		p, err := agent.ExecutableForPlatform(q.Goos, q.Goarch, q.Output)
 		a := ChildAnswer{Path: p}
 		if err != nil {
